@@ -476,17 +476,35 @@ def ChildM.isIssued (c : ChildM) (key : Nat) : Bool :=
   | _ => false
 
 inductive RevokeOut where
-  /-- `Ok(vec![])`: nothing happens, the manager still sends a `RevocationResponse` -/
+  /-- `Ok(vec![])` for a class this CA does not have: nothing happens, the manager still sends a
+  `RevocationResponse` -/
   | ignored
+  /-- `Ok(vec![])` for a key this CA marked `Revoked` itself (fix 7be8c4c6): nothing to do, the
+  manager sends a `RevocationResponse` -/
+  | alreadyRevoked
   /-- `Err(KeyUseNoIssuedCert)` -/
   | error
   /-- `ChildKeyRevoked` + `ChildCertificatesUpdated { removed: [key] }` for the parent's class -/
   | revoked (myRcn key : Nat)
 deriving DecidableEq, Repr, Inhabited
 
+/-- `used_keys.get(key) == Some(UsedKeyState::Revoked)` -/
+def ChildM.isRevoked (c : ChildM) (key : Nat) : Bool :=
+  match get? c.usedKeys key with
+  | some none => true
+  | _ => false
+
 /-- The decision as the code takes it (since fix 43d7eca0 of finding F-C03-1): the child's class
-name is translated first, then the class is looked up. -/
+name is translated first, then the class is looked up; (since fix 7be8c4c6 of F-C02-2) a key this
+CA revoked itself is confirmed, only a key the child never used is an error. -/
 def processChildRevokeKey (resources : List Nat) (c : ChildM) (childRcn key : Nat) : RevokeOut :=
+  if c.parentNameForRcn childRcn ∉ resources then .ignored
+  else if !c.isIssued key then (if c.isRevoked key then .alreadyRevoked else .error)
+  else .revoked (c.parentNameForRcn childRcn) key
+
+/-- Counter-model pinned to the behaviour before fix 7be8c4c6 (F-C02-2, F-C01-3, F-C08-6): a
+request for a key this CA had revoked itself was an error - for ever. -/
+def pinnedRevokedKeyRefused (resources : List Nat) (c : ChildM) (childRcn key : Nat) : RevokeOut :=
   if c.parentNameForRcn childRcn ∉ resources then .ignored
   else if !c.isIssued key then .error
   else .revoked (c.parentNameForRcn childRcn) key
